@@ -368,7 +368,7 @@ def confirm(h, res, pid, logdir):
     pb = playback(h, crate, tests, logdir)
     reproduced = [r for r in pb if r["native"] == "FAILED"]
     details = {"playback_dev": pb}
-    if reproduced and h.get("replay_release", True):
+    if reproduced and h.get("replay_release", False):  # cargo kani playback 0.68 rejects --release
         details["playback_release"] = playback(h, crate, tests, logdir, profile_release=True, write=False)
     rp = os.path.join(REPLAY_DIR, "%s-%s.json" % (pid, h["name"]))
     json.dump({"property": pid, "harness": harness_path(h), "module": h["module"],
